@@ -209,21 +209,29 @@ def validate_model(desc: Dict[str, Any], src: str, P: Dict[str, Any], obs: List[
             return f"driver error {ob['driver_error']}"
         views = an.suspended_views(ob["lasti"])
         truth = (tuple(m.i for m in ob["active"] if m is not ob["exiting"]), ob["exiting"].i if ob["exiting"] else None)
-        mapped = {(tuple(wmap[w][0] for w in ent), wmap[ex][0] if ex is not None else None): st for st, ent, ex in views}
-        if truth not in mapped:
-            return f"real run reaches lasti={ob['lasti']} with {truth}, abstract interpreter predicts {list(mapped)}"
+        cands = [st for st, ent, ex in views
+                 if (tuple(wmap[w][0] for w in ent), wmap[ex][0] if ex is not None else None) == truth]
+        if not cands:
+            preds = [(tuple(wmap[w][0] for w in ent), wmap[ex][0] if ex is not None else None) for _, ent, ex in views]
+            return f"real run reaches lasti={ob['lasti']} with {truth}, abstract interpreter predicts {preds}"
         real = ob.get("stack")
         if real is None:
             return f"real inspect_frame failed: {ob.get('stack_exc')}"
-        st = mapped[truth]
-        if len(real) != len(st):
-            return f"stack depth at lasti={ob['lasti']}: real {len(real)}, model {len(st)}"
-        for t, r in zip(st, real):
-            ism = isinstance(r, _t.MethodType) and r.__func__.__name__ in ("__exit__", "__aexit__")
-            if (isinstance(t, tuple) and t[0] == "exit") != ism:
-                return f"stack tags at lasti={ob['lasti']} differ from the real stack"
-            if ism and r.__self__.i != wmap[t[1]][0]:
-                return f"manager identity in slot differs at lasti={ob['lasti']}"
+
+        def matches(st: Any) -> bool:
+            if len(real) != len(st):
+                return False
+            for t, r in zip(st, real):
+                ism = isinstance(r, _t.MethodType) and r.__func__.__name__ in ("__exit__", "__aexit__")
+                if (isinstance(t, tuple) and t[0] == "exit") != ism:
+                    return False
+                if ism and r.__self__.i != wmap[t[1]][0]:
+                    return False
+            return True
+
+        # (exception edges are over-approximated, so a spurious abstract state may sit next to the real one)
+        if not any(matches(st) for st in cands):
+            return f"no abstract state at lasti={ob['lasti']} matches the real stack (depth {len(real)})"
     return None
 
 
@@ -390,7 +398,7 @@ def run(rep: Any, tier: str, seed: int) -> None:
     rep.bounds = {"interpreter": sys.version.split()[0], "corpus": f"{tier}: contexts {progs.CONTEXTS} x tails {progs.TAILS} x kinds {progs.KINDS} x sync/async x 1-2 items x continuation"
                   + (" (full product)" if tier == "thorough" else " (every context x tail pair, other dimensions rotating)"),
                   "f_lasti": "every reachable suspension offset of each code object",
-                  "lemma": "1..2 (thorough 3) table entries, each field 1..2 (thorough 3) varint bytes with symbolic 6-bit payloads; symbolic instruction index"}
+                  "lemma": "quick: 1-2 table entries, fields of 1-2 varint bytes; thorough: L1 1-2 entries x 1-3 bytes and 3 entries x 1 byte, L2 1 entry x 1-3 bytes, 2 entries x 1-2 bytes, 3 entries x 1 byte; symbolic 6-bit payloads; symbolic instruction index; thorough: every unsat answer of the 1-entry (and 2-entry L2) shards re-decided by cvc5"}
     rep.outside = ["the ctypes half of inspect_frame (struct layout, stacktop, py_object reads) -- replaced by a model validated against the real interpreter",
                    "CPython 3.9/3.10/3.11 (not the interpreter of /venv; 3.9/3.10 lack dependencies in this sandbox)",
                    "programs outside the grammar", "match patterns beyond literal/wildcard"]
@@ -409,16 +417,18 @@ def run(rep: Any, tier: str, seed: int) -> None:
     import itertools
 
     jobs: List[Tuple[str, Any]] = []
-    maxE = 2 if tier == "quick" else 3
-    for E in range(1, maxE + 1):
-        NB = 2 if (tier == "quick" or E == 3) else 3
-        for which in ("L1", "L2"):
+    # lemma sizes: (entries, max varint bytes per field, cross-check unsat answers with cvc5)
+    if tier == "quick":
+        sizes = {"L1": [(1, 2, False), (2, 2, False)], "L2": [(1, 2, False), (2, 2, False)]}
+    else:
+        sizes = {"L1": [(1, 3, True), (2, 3, False), (3, 1, False)], "L2": [(1, 3, True), (2, 2, True), (3, 1, False)]}
+    for which, lst in sizes.items():
+        for (E, NB, cv) in lst:
             if E == 1:
-                jobs.append(("_lemma_shard", {"entries": E, "nbytes": NB, "which": which, "cvc5": tier == "thorough", "budget": 2400}))
+                jobs.append(("_lemma_shard", {"entries": E, "nbytes": NB, "which": which, "cvc5": cv, "budget": 1500}))
             else:
                 for fixed in itertools.product(range(1, NB + 1), repeat=4):
-                    jobs.append(("_lemma_shard", {"entries": E, "nbytes": NB if E < 3 else 1, "which": which, "fixed0": list(fixed),
-                                                  "cvc5": tier == "thorough" and E < 3, "budget": 2400}))
+                    jobs.append(("_lemma_shard", {"entries": E, "nbytes": NB, "which": which, "fixed0": list(fixed), "cvc5": cv, "budget": 1500}))
     for c in chunks(tier, seed, 32 if tier == "quick" else 64):
         jobs.append(("_main_shard", c))
     res = par.run_mixed("harness.c01", jobs)
